@@ -107,6 +107,13 @@ public:
         if (g_wshm->timed_out) return false;
         return true;
     }
+    // replay support for harnesses whose cases are not parsed back from text: the enumeration is re-run and only the
+    // case whose description equals replay_want is executed
+    std::string replay_want;
+    bool next_case_named(const std::string &desc) {
+        if (replaying) return desc == replay_want;
+        return next_case();
+    }
     void begin(const std::string &desc) {
         NoCount nc;
         cur = desc;
